@@ -68,6 +68,8 @@ class Stats:
         self.decisions = hashlib.sha256()
         self.ndecisions = 0
         self.policies = {}
+        self.trace = []          # first decisions, human-readable: [run_no, policy, worker, quantum]
+        self.runs = 0
 
 
 class Baton:
@@ -159,6 +161,7 @@ class Baton:
         rnd = self.rnd
         policy = self.policy or rnd.choice(POLICIES)
         st = self.stats
+        st.runs += 1
         st.policies[policy] = st.policies.get(policy, 0) + 1
         for t in self.tasks:
             target = (lambda tt=t: self._thread_main(tt))
@@ -233,6 +236,8 @@ class Baton:
                         prio[t.idx] = max(prio.values()) + 1
                 st.decisions.update(b"%d:%d;" % (t.idx, q))
                 st.ndecisions += 1
+                if len(st.trace) < 120:
+                    st.trace.append([st.runs, policy, t.idx, q if q < 10 ** 8 else "inf"])
                 st.handovers += 1
                 self.cur = t
                 self.quantum = q
